@@ -218,9 +218,12 @@ Section Safe.
     intros Hv Hwf. unfold toggle_client.
     destruct (c_client st) as [cur|]; [|exact I].
     destruct (ctype_eqb (client_type cur) (client_type cs)); [exact I|].
-    cbn [negb andb]. eapply osafe_bind; [apply initialize_safe; [exact Hv | apply store_wf_set_client; exact Hwf]|].
+    cbn [negb andb]. eapply osafe_bind; [apply initialize_safe; [exact Hv | apply store_wf_set_client; apply store_wf_empty]|].
     intros st1 H1. cbn. destruct (is_tss_cons k); [exact H1 | apply store_wf_set_cons; exact H1].
   Qed.
+
+  Lemma cons_type_ok_safe c k : osafe (fun _ => True) (cons_type_ok false c k).
+  Proof. unfold cons_type_ok. destruct (cons_type k) as [t|]; [|exact I]. destruct (ctype_eqb t (client_type c)); exact I. Qed.
 
   (** * Proposal handlers *)
   Lemma xget_xset s chain v chain' : xget (xset s chain v) chain' = if bytes_eqb chain chain' then v else xget s chain'.
@@ -250,15 +253,18 @@ Section Safe.
     - apply client_prop_validate_facts in Hv as (c & -> & Hc). unfold handle_xprop, handle_xprop_gen.
       destruct (c_client (xget s chain)); [exact I|]. cbn [unpack obind].
       eapply osafe_bind; [apply unpack_safe|]. intros kk _.
+      eapply osafe_bind; [apply cons_type_ok_safe|]. intros _ _.
       eapply osafe_bind; [apply create_client_safe; [exact Hc | apply Hwf]|].
       intros st' H'. cbn. apply xstate_wf_xset; assumption.
     - apply client_prop_validate_facts in Hv as (c & -> & Hc). unfold handle_xprop, handle_xprop_gen. cbn [unpack obind].
       eapply osafe_bind; [apply unpack_safe|]. intros kk _.
+      eapply osafe_bind; [apply cons_type_ok_safe|]. intros _ _.
       eapply osafe_bind; [apply upgrade_client_safe; [exact Hc | apply Hwf]|].
       intros st' H'. cbn. apply xstate_wf_xset; assumption.
     - apply client_prop_validate_facts in Hv as (c & -> & Hc). unfold handle_xprop, handle_xprop_gen.
       destruct (c_client (xget s chain)); [|exact I]. cbn [unpack obind].
       eapply osafe_bind; [apply unpack_safe|]. intros kk _.
+      eapply osafe_bind; [apply cons_type_ok_safe|]. intros _ _.
       eapply osafe_bind; [apply toggle_client_safe; [exact Hc | apply Hwf]|].
       intros st' H'. cbn. apply xstate_wf_xset; assumption.
     - cbn. exact Hwf.
@@ -330,7 +336,7 @@ Proof.
   { apply all_ok_intro. intros cc Hcc. pose proof (all_ok_ok _ _ Hcons cc Hcc) as H'. cbn in H'.
     destruct (assoc_type types (fst cc)); [|discriminate].
     apply all_ok_intro. intros [h a] Hhc. pose proof (all_ok_ok _ _ H' _ Hhc) as H''. cbn in H''.
-    destruct ((h_rev h =? 0) && (h_ht h =? 0)); [discriminate|]. destruct a; try discriminate. reflexivity. }
+    destruct ((h_rev h =? 0) && (h_ht h =? 0) && negb (ctype_eqb c TETH) && negb (ctype_eqb c TBSC)); [discriminate|]. destruct a; try discriminate. reflexivity. }
   rewrite E3. cbn [obind].
   assert (E4 : all_ok (fun alen : N => if alen =? 0 then Panic else Ok tt) (gx_relayers g) = Ok tt).
   { apply all_ok_intro. intros alen Hin. destruct (alen =? 0) eqn:E; [|reflexivity]. exfalso. apply N.eqb_eq in E.
@@ -355,7 +361,7 @@ Proof.
   destruct (mem (addr_key (gp_erc20 q)) se); [discriminate|].
   destruct (gp_denoms q) as [|d0 ds] eqn:Ed; [discriminate|].
   destruct (denoms_fresh (d0 :: ds) sd) as [seen|]; [|discriminate].
-  destruct (negb (forallb valid_denom (d0 :: ds))); [discriminate|].
+  destruct (negb (forallb (fun d => valid_denom d && negb (is_hex_address d)) (d0 :: ds))); [discriminate|].
   destruct (negb (is_hex_address (gp_erc20 q))); [discriminate|].
   destruct Hin as [<-|Hin]; [rewrite Ed; discriminate | eapply IH; eassumption].
 Qed.
